@@ -43,7 +43,7 @@ theorem gather_chained (ts : List Token) : Chained C g (gatherAll C g cap Tree.e
 /-- every element verifies and its parent is genesis or an element (closedness, read off `gather_chained`) -/
 theorem gather_closed (ts : List Token) :
     ∀ e ∈ (gatherAll C g cap Tree.empty ts).els,
-      e.valid C = true ∧ (e.prev = g ∨ hasId C (gatherAll C g cap Tree.empty ts).els e.prev = true) :=
+      e.ok C g = true ∧ (e.prev = g ∨ hasId C (gatherAll C g cap Tree.empty ts).els e.prev = true) :=
   (gather_chained ts).closed
 
 /-- The return value of `gather_token` reports membership truthfully: a returned token (the offered one or the
@@ -82,7 +82,7 @@ theorem unoffered_never_contained (ts : List Token) (t : Token) (hno : ∀ o ∈
 /-- what waits was offered, is signed by the tree key, and its parent is neither genesis nor an element -/
 theorem waiting_sound (ts : List Token) :
     ∀ u ∈ (gatherAll C g cap Tree.empty ts).unc,
-      Off ts u ∧ u.valid C = true ∧ u.prev ≠ g ∧ hasId C (gatherAll C g cap Tree.empty ts).els u.prev = false :=
+      Off ts u ∧ u.ok C g = true ∧ u.prev ≠ g ∧ hasId C (gatherAll C g cap Tree.empty ts).els u.prev = false :=
   (history_sound ts).uncOk
 
 /-- the waiting area never holds more than `cap` tokens -/
@@ -118,16 +118,49 @@ theorem element_ids_iff (ts : List Token) (hinj : HashInj C ts) (hfit : Fits C g
     obtain ⟨e, he, hc⟩ := (elements_iff ts hinj hfit t).mpr ht
     exact ⟨e, he, by rw [id_of_core C hc]; exact hid⟩
 
+/-! #### the hash hypothesis, reduced to bytes
+
+  `HashInj` asks that equal hashes mean equal TOKENS (the three fields).  A hash function only ever separates BYTE
+  strings, and the signed bytes of a token do not say where `previous_token_hash` ends: the same bytes, cut elsewhere,
+  are another token with the same signature and the same hash.  gather_token therefore ignores every token whose
+  pointers are not digest sized (`unsized_ignored`); among the remaining ones equal bytes are equal tokens, so
+  collision freeness of the hash on byte strings is enough (`hashInj_of_bytes`, `elements_iff_bytes`). -/
+
+/-- a token whose pointers are not digest sized leaves the tree exactly as it was; a history acts like its sized part -/
+theorem unsized_ignored (tr : Tree) (t : Token) (ts : List Token) :
+    (t.sized g = false → gather C g cap tr t = tr) ∧
+    gatherAll C g cap tr ts = gatherAll C g cap tr (ts.filter (fun t => t.sized g)) :=
+  ⟨gather_unsized tr t, gatherAll_filter_sized tr ts⟩
+
+/-- among digest-sized tokens, a hash without collisions ON BYTE STRINGS separates tokens -/
+theorem hashInj_of_bytes (ts : List Token) (hs : ∀ t ∈ ts, t.sized g = true)
+    (hb : ∀ a ∈ ts, ∀ b ∈ ts, a.id C = b.id C → a.signed = b.signed) : HashInj C ts :=
+  fun a ha b hb' hid => core_of_signed_sized (hs a ha) (hs b hb') (hb a ha b hb' hid)
+
+/-- Exactness for ARBITRARY offered tokens (re-cut copies, odd-sized pointers included), assuming only that the hash
+    does not collide on the signed bytes of the digest-sized offers and that those do not overflow the waiting area -/
+theorem elements_iff_bytes (ts : List Token)
+    (hb : ∀ a ∈ ts, ∀ b ∈ ts, a.sized g = true → b.sized g = true → a.id C = b.id C → a.signed = b.signed)
+    (hfit : Fits C g cap Tree.empty (ts.filter (fun t => t.sized g))) (t : Token) :
+    (gatherAll C g cap Tree.empty ts).holds t ↔ InTree C g (ts.filter (fun t => t.sized g)) t := by
+  rw [gatherAll_filter_sized]
+  apply elements_iff _ _ hfit
+  apply hashInj_of_bytes (g := g)
+  · intro x hx; exact (List.mem_filter.mp hx).2
+  · intro a ha b hb' hid
+    exact hb a (List.mem_filter.mp ha).1 b (List.mem_filter.mp hb').1 (List.mem_filter.mp ha).2
+      (List.mem_filter.mp hb').2 hid
+
 /-- … and nothing is lost: while the waiting area is not exceeded, the waiting tokens are exactly the offered tokens
     that are signed by the tree key but not (yet) connected to genesis -/
 theorem waiting_iff (ts : List Token) (hinj : HashInj C ts) (hfit : Fits C g cap Tree.empty ts) (t : Token)
     (ht : t ∈ ts) :
-    (∃ u ∈ (gatherAll C g cap Tree.empty ts).unc, u.core = t.core) ↔ (t.valid C = true ∧ ¬ InTree C g ts t) := by
+    (∃ u ∈ (gatherAll C g cap Tree.empty ts).unc, u.core = t.core) ↔ (t.ok C g = true ∧ ¬ InTree C g ts t) := by
   have I := history_full (g := g) (cap := cap) ts hfit hinj
   constructor
   · rintro ⟨u, hu, hc⟩
     obtain ⟨_, hv, hg, hp⟩ := I.uncOk u hu
-    refine ⟨by rw [← valid_of_core C hc]; exact hv, fun hin => ?_⟩
+    refine ⟨by rw [← ok_of_core C g hc]; exact hv, fun hin => ?_⟩
     cases hin with
     | root _ _ _ hp0 => exact hg (prev_of_core hc ▸ hp0)
     | child _ p _ _ hpin hid =>
@@ -228,7 +261,17 @@ theorem content_bound (ts : List Token) (h : ∀ t ∈ ts, t.contentOk C) :
     (∀ u ∈ (gatherAll C g cap Tree.empty ts).unc, u.contentOk C) :=
   gatherAll_contentOk Tree.empty ts (by simp [Tree.empty]) (by simp [Tree.empty]) h
 
-/-- Content binding WITHOUT any hypothesis on the offered objects: whatever the offered Token objects carry in
+/-- The duplicate branch, call by call, for ANY tree and ANY offered object: when gather_token is given a token whose
+    hash is already stored, the waiting area is untouched and every element afterwards is an element from before,
+    unchanged, or carries content that hashes to its pointer.  (This is the statement that separates the code from a
+    variant that copies the duplicate's `content` field: there the stored token changes into an unbound one.) -/
+theorem duplicate_content_checked (tr : Tree) (t : Token) (hk : gatherKind C g tr t = .shadow) :
+    (gather C g cap tr t).unc = tr.unc ∧
+    ∀ e ∈ (gather C g cap tr t).els, e ∈ tr.els ∨ e.contentOk C :=
+  gather_shadow_content tr t hk
+
+/-- A WEAK history-level companion (it does NOT by itself exclude copying a duplicate's content, because a stored
+    token that took over a duplicate's content equals that offered duplicate): without any hypothesis on the offered objects: whatever the offered Token objects carry in
     their `content` field (a relay may have put anything there — the field is covered by neither hash nor signature),
     every stored or waiting token either carries no / bound content, or is literally one of the offered objects,
     content included.  So the tree itself never attaches content that does not hash to the pointer: content that
@@ -245,9 +288,8 @@ theorem content_attach_checked (ts : List Token) :
   · simp [Tree.empty]
   · exact fun t ht => Or.inr ht
 
-/-- … in particular a token that arrived bare (all offered copies of it without content, or with bound content) can
-    only ever hold bound content, however many duplicates with foreign content are offered later or earlier -/
-theorem content_of_bare_arrival_bound (ts : List Token) (e : Token)
+/-- … so if NO offered copy of the token carried this content unbound, the content is bound (weak, see above) -/
+theorem content_of_bare_arrival_partial (ts : List Token) (e : Token)
     (he : e ∈ (gatherAll C g cap Tree.empty ts).els) (c : Bytes) (hc : e.content = some c)
     (hbad : ∀ o ∈ ts, o.core = e.core → o.content = some c → C.hash c = e.chash) : C.hash c = e.chash := by
   rcases (content_attach_checked (C := C) (g := g) (cap := cap) ts).1 e he with h | h
@@ -285,9 +327,9 @@ theorem root_path_sound (tr : Tree) (t : Token) (d : Int) (h : rootPath C g tr t
 
 /-- after any history: an offered token that `verify` accepts belongs to the least fixpoint
     (so forged, foreign and dangling tokens are never reported as part of the tree) -/
-theorem verify_sound_history (ts : List Token) (t : Token) (d : Int) (hoff : Off ts t)
+theorem verify_sound_history (ts : List Token) (t : Token) (d : Int) (hoff : Off ts t) (hsz : t.sized g = true)
     (h : verify C g (gatherAll C g cap Tree.empty ts) t d = true) : InTree C g ts t :=
-  path_inTree (gather_sound ts) (verify_sound _ t d h).1 hoff
+  path_inTree (gather_sound ts) (verify_sound _ t d h).1 hoff hsz
 
 /-- `verify` finds every element of a signed chain when `maxdepth` is at least the number of elements
     (the default 1000 covers trees of up to 1000 tokens) -/
@@ -355,11 +397,12 @@ theorem upto_roundtrip (tr : Tree) (t : Token) (hc : Chained C g tr.els) (ht : t
       obtain ⟨o, ho, hoc⟩ := (off_map_strip path x).mp hx.off
       exact ⟨o, ho, hoc⟩
     · rintro ⟨y, hy, hyc⟩
-      exact ((hpath.all_inTree y hy).mono_off (fun z hz => (off_map_strip path z).mpr hz)).of_core hyc
+      have hsz : ∀ z ∈ path, z.sized g = true := fun z hz => ok_sized C g (hc.closed z (hsub z hz)).1
+      exact ((hpath.all_inTree hsz y hy).mono_off (fun z hz => (off_map_strip path z).mpr hz)).of_core hyc
 
 /-- the owner's side: `add` / `add_by_hash` of a fresh, properly signed token under genesis or a stored token keeps
     the elements a signed chain (so the round trip above applies to trees built by their owner) -/
-theorem own_add_chained (tr : Tree) (t : Token) (hc : Chained C g tr.els) (hv : t.valid C = true)
+theorem own_add_chained (tr : Tree) (t : Token) (hc : Chained C g tr.els) (hv : t.ok C g = true)
     (hp : t.prev = g ∨ hasId C tr.els t.prev = true) (hd : hasId C tr.els (t.id C) = false) :
     (append C tr t).els = tr.els ++ [t] ∧ Chained C g (append C tr t).els := by
   have : (append C tr t).els = tr.els ++ [t] := by simp [append, dictSet, hd]
@@ -401,15 +444,6 @@ theorem unserialize_true_all_held (tr : Tree) (s : Bytes)
   | true =>
     simp only [hp, ↓reduceIte, Option.some.injEq] at h
     exact flags_true_held _ _ h
-
-/-- struct.error (result `none`) happens exactly when the length of the string is not a whole number of chunks of
-    `chunkBase + sigLen` bytes; the chunks before the short one have been gathered by then (`unserialize_sound`) -/
-theorem unserialize_error_iff (tr : Tree) (s : Bytes) :
-    (unserializePublic C g cap tr s).2 = none ↔ s.length % (Gen.chunkBase + C.sigLen) ≠ 0 := by
-  unfold unserializePublic
-  simp only []
-  rw [parse_ok_iff]
-  cases h : (s.length % (Gen.chunkBase + C.sigLen) == 0) <;> simp_all
 
 /-! ### several trees of different keys in one process: what a token went through elsewhere does not matter -/
 
@@ -499,10 +533,10 @@ example : WireOk toy wA := by unfold WireOk; decide
 example : Chained toy (List.replicate 32 0) [wA] := .snoc [] wA .nil (by decide) (Or.inl rfl) (by decide)
 /-- the model computes: the final state of the history above, and of another order with a waiting area of one -/
 example : gatherAll toy [0] 100 Tree.empty hist = ⟨[tA, tB, tC], [tD]⟩ := by
-  simp [gatherAll, gather, drain, Tree.empty, hist, toy, tA, tB, tC, tD, tF, Token.valid, Token.id,
+  simp [gatherAll, gather, drain, Tree.empty, hist, toy, tA, tB, tC, tD, tF, Token.ok, Token.sized, Token.valid, Token.id,
     Token.signed, hasId, uncAdd, uncStore, kidsOf, othersOf, Token.same]
 example : Fits toy [0] 1 Tree.empty [tB, tA, tC] := by
-  simp [Fits, gatherKind, storeLen, gather, drain, Tree.empty, toy, tA, tB, tC, Token.valid, Token.id,
+  simp [Fits, gatherKind, storeLen, gather, drain, Tree.empty, toy, tA, tB, tC, Token.ok, Token.sized, Token.valid, Token.id,
     Token.signed, Token.plain, hasId, uncAdd, uncStore, kidsOf, othersOf, Token.same]
 /-- two keys: a signature is the key byte; `tX` is signed by key [7] but hangs off the genesis of key [5] -/
 def toyK : Keyed := ⟨fun x => [x.foldl (· + ·) 0], fun k _ s => s == k, fun _ => 1⟩
@@ -514,7 +548,7 @@ example : offeredTo 1 [(0, tX), (1, tX)] = [tX] := by decide
 def tAbad : Token := { tA with content := some [66] }
 def tAgood : Token := { tA with content := some [10] }
 example : (gatherAll toy [0] 100 Tree.empty [tA, tAbad, tAgood]).els = [tAgood] := by
-  simp [gatherAll, gather, drain, Tree.empty, toy, tA, tAbad, tAgood, Token.valid, Token.id, Token.signed, hasId,
+  simp [gatherAll, gather, drain, Tree.empty, toy, tA, tAbad, tAgood, Token.ok, Token.sized, Token.valid, Token.id, Token.signed, hasId,
     absorb, Token.receiveContent, kidsOf, othersOf]
 example : verify toy [0] ⟨[tA, tB, tC], []⟩ tC 1000 = true := by decide
 example : rootPath toy [0] ⟨[tA, tB, tC], []⟩ tC 2 = [tC, tA] := by decide
